@@ -287,3 +287,26 @@ EXPORT = {
 def obj(kind, x):
     con, f = EXPORT[kind]
     return f'({con} {f(x)})'
+
+
+def canon_dict_lenient(kind, d):
+    """canon_dict for dictionaries that may lack keys (malformed stream): a column whose unit is
+    missing or unparsable is left as it is."""
+    from pharmpy.basic.unit import Unit
+    import copy
+    d = copy.deepcopy(d)
+
+    def fix_di(di):
+        if not isinstance(di, dict) or not isinstance(di.get('columns'), (list, tuple)):
+            return
+        for col in di['columns']:
+            if isinstance(col, dict) and isinstance(col.get('unit'), str):
+                try:
+                    col['unit'] = Unit.deserialize(col['unit']).serialize()
+                except Exception:
+                    pass
+    if kind == 'datainfo':
+        fix_di(d)
+    elif kind == 'model' and isinstance(d, dict):
+        fix_di(d.get('datainfo'))
+    return d
